@@ -37,7 +37,7 @@ def workdir(name):
 # ----------------------------------------------------------------------------- TLC
 def run_tlc(module, cfg, metadir, env=None, workers=1, extra=None, timeout=1800, heap="2g", simulate=None, depth=None, seed=None, coverage=False):
     """Runs TLC; returns (returncode, stdout).  module/cfg are paths (cfg may live anywhere)."""
-    cmd = ["java", "-XX:+UseParallelGC", "-Xmx" + heap, "-cp", tlc_classpath(), "tlc2.TLC", "-workers", str(workers),
+    cmd = ["java", "-XX:+UseParallelGC", "-Xss64m", "-Xmx" + heap, "-cp", tlc_classpath(), "tlc2.TLC", "-workers", str(workers),
            "-metadir", metadir, "-config", cfg]
     if simulate is not None:
         cmd += ["-simulate", "num=%d" % simulate]
@@ -172,6 +172,10 @@ def validate_trace(trace, module="SluTrace.tla", cfg="SluTrace.cfg", tag="tv", e
     verdicts = printed_json(out)
     nlines = sum(1 for _ in open(trace))
     if rc != 0 or "No error has been found" not in out or len(verdicts) != nlines:
+        keep = os.path.join(WORK, "failed_" + tag)
+        shutil.copy(trace, keep + ".ndjson")
+        with open(keep + ".tlc.txt", "w") as fh:
+            fh.write(out)
         raise Broken("trace validation failed on %s (rc=%d, %d verdicts for %d lines):\n%s" % (trace, rc, len(verdicts), nlines, out[-3000:]))
     return verdicts, tlc_stats(out)
 
